@@ -72,6 +72,23 @@ def resetKeys (E : Env S A O R X) (flag : Bool) : S → List A → List Key
 
 end AutoReset
 
+
+/-! ### `Wrapper` base class and stacks of wrappers.  `Wrapper(env)` forwards `reset`/`step` to `_env`; a subclass
+overrides either by post-processing what `_env` returns and/or pre-processing the key.  `unwrapped` is the innermost
+environment.  A wrapper placed ON TOP of such a wrapper must go through the wrapper it was given, not the innermost one. -/
+namespace Stack
+
+/-- a user wrapper around `E`: `pre` is applied to the key given to `reset`, `fr` / `fs` to what `_env.reset` / `_env.step`
+return (`pre = id`, `fr = fs = id` is the `Wrapper` base class itself) -/
+def wrap (E : Env S A O R X) (pre : Key → Key) (fr fs : S × TS O R X → S × TS O R X) : Env S A O R X :=
+  { reset := fun k => fr (E.reset (pre k)), step := fun s a => fs (E.step s a), key := E.key }
+
+/-- the (wrong) auto-reset that resets through `unwrapped` instead of the wrapped environment -/
+def autoResetUnwrapped (inner outer : Env S A O R X) (flag : Bool) (s : S) (t : TS O R X) : S × TS O R X :=
+  ((inner.reset (.left (outer.key s))).1, { maybeAddObs flag t with obs := (inner.reset (.left (outer.key s))).2.obs })
+
+end Stack
+
 /-! ### batched wrappers: `jax.vmap` = map over the batch, `lax.map` = map -/
 namespace Vmap
 
